@@ -327,3 +327,36 @@ impl Metrics {
         self.0.remembered_gcs.update(|c| c + count);
     }
 }
+
+/// Verification hook: the raw counters behind [`Metrics::allocation_debt`] (only with
+/// `--cfg gc_arena_verif`).
+#[cfg(gc_arena_verif)]
+#[derive(Debug, Clone, Copy, PartialEq)]
+pub struct VerifCounters {
+    pub total_gcs: usize,
+    pub wakeup_amount: f64,
+    pub artificial_debt: f64,
+    pub allocated_gcs: usize,
+    pub dropped_gcs: usize,
+    pub freed_gcs: usize,
+    pub marked_gcs: usize,
+    pub traced_gcs: usize,
+    pub remembered_gcs: usize,
+}
+
+#[cfg(gc_arena_verif)]
+impl Metrics {
+    pub fn verif_counters(&self) -> VerifCounters {
+        VerifCounters {
+            total_gcs: self.0.total_gcs.get(),
+            wakeup_amount: self.0.wakeup_amount.get(),
+            artificial_debt: self.0.artificial_debt.get(),
+            allocated_gcs: self.0.allocated_gcs.get(),
+            dropped_gcs: self.0.dropped_gcs.get(),
+            freed_gcs: self.0.freed_gcs.get(),
+            marked_gcs: self.0.marked_gcs.get(),
+            traced_gcs: self.0.traced_gcs.get(),
+            remembered_gcs: self.0.remembered_gcs.get(),
+        }
+    }
+}
